@@ -143,16 +143,19 @@ def _scenarios() -> list[Scn]:
     S.append(Scn("climate.fan_speed", lambda x: D.Climate(x, "d", group_address_fan_speed="1/5/3"), lambda d, v: d.set_fan_speed(v), lambda d: d.current_fan_speed, list(range(101)), lambda q, r: nearest_ok(q, r, scaling_image(0, 100))))
     S.append(Scn("climate.swing", lambda x: D.Climate(x, "d", group_address_swing="1/5/4"), lambda d, v: d.set_swing(v), lambda d: d.current_swing, B, eq, pairs=True))
     for mode in (SetpointShiftMode.DPT6010, SetpointShiftMode.DPT9002):
-        for step in (0.1, 0.2, 0.5, 1.0):
+        for step in (0.1, 0.2, 0.5, 1.0, 0.25, 0.05):
             if mode is SetpointShiftMode.DPT9002 and step != 0.1:
                 continue
             image = sorted({k * step for k in range(-128, 128)}) if mode is SetpointShiftMode.DPT6010 else dpt_image("temperature")
             shifts = [round(-6 + 0.1 * i, 1) for i in range(121)]
+            if step in (0.25, 0.05):
+                # steps that are not multiples of 0.1: the requests on the step's own grid as well (exactly representable ones included)
+                shifts = sorted(set(shifts) | {round(k * step, 2) for k in range(-int(6 / step), int(6 / step) + 1) if -128 <= k <= 127})
             build = lambda x, mode=mode, step=step: D.Climate(x, "d", group_address_target_temperature_state="1/5/5", group_address_setpoint_shift="1/5/6", setpoint_shift_mode=mode, temperature_step=step)  # noqa: E731
             S.append(Scn(f"climate.setpoint_shift({mode.name},step={step})", build, lambda d, v: d.set_setpoint_shift(v), lambda d: d.setpoint_shift, shifts, lambda q, r, image=image: nearest_ok(q, r, image)))
             # target temperature through the shift: base 21.0 known from a target temperature of 21.0 with shift 0
             prep = [("1/5/5", DPTBase.parse_transcoder("temperature").to_knx(21.0)), ("1/5/6", DPTArray((0,)) if mode is SetpointShiftMode.DPT6010 else DPTBase.parse_transcoder("temperature").to_knx(0.0))]  # type: ignore[union-attr]
-            tgts = [round(21.0 + s, 1) for s in shifts]
+            tgts = [round(21.0 + s, 2) for s in shifts]
             S.append(Scn(f"climate.target_via_shift({mode.name},step={step})", build, lambda d, v: d.set_target_temperature(v), lambda d: d.setpoint_shift, tgts,
                          lambda q, r, image=image: nearest_ok(q - 21.0, r, image), prepare=prep, pairs=False,
                          feedback=lambda d, v: [("1/5/5", DPTBase.parse_transcoder("temperature").to_knx(21.0 + (d.setpoint_shift or 0.0)))]))  # type: ignore[union-attr]
@@ -368,7 +371,7 @@ def run(ctx: Ctx) -> None:
     scns = scenarios()
     ctx.rule = (
         f"{len(scns)} loop-back scenarios over every device class with a setter (switch, light: switch/brightness/rgb/rgbw/individual colours/hs/xyY/tunable white/colour temperature, cover: position/angle/up-down "
-        "plain and inverted, fan: percent/step/oscillation/switch, climate: target temperature, on/off plain and inverted, fan speed, swing, setpoint shift in both modes x steps 0.1/0.2/0.5/1 directly and through "
+        "plain and inverted, fan: percent/step/oscillation/switch, climate: target temperature, on/off plain and inverted, fan speed, swing, setpoint shift in both modes x steps 0.1/0.2/0.5/1/0.25/0.05 directly and through "
         "set_target_temperature on a 0.1 K grid, climate mode: byte and binary operation modes, controller mode, heat/cool, numeric value and expose sensor over 17 value types, raw value, notification, date/time): "
         "real XKNX on the virtual loop, the command's telegrams pass the real queue, the fake interface, and are processed as outgoing by the device. EVERY value of each setter's alphabet (all 0..255 / 0..100 for "
         "scaled values) as a single command, as second command after the extreme values, and all pairs (triples for <=5 values) for state-carrying setters. Oracle: reported state = requested, or a nearest value of the "
